@@ -13,6 +13,7 @@ PsA == {-2, -1, 0, 1, 2, 3, 5}
 PsB == {-1, 0, 1, 2, 5}
 PsC == {-2, -1, 0, 1, 3}
 PsD == {-3, -1, 0, 1, 2, 5}
+PsW == {-3, 0, 1, 17, 20}      \* pairs of samples 8 to 11 grid levels apart
 EsAll == {-1, 0, 1}
 EsNone == {0}
 vars == <<n, ser>>
